@@ -170,17 +170,15 @@ def rule_same_predicate(ctx, p, cfg, rid="T1"):
         nl = ro["node_log"]
         ds = ro["deliver_site"]
         conds = nl.conditions(ds.block)
-        gate = None
-        for (sb, si, allowed) in conds:
-            d = strip(si.discr)
-            if d[0] == "call" and d[1] == pred.path:
-                gate = (sb, si, allowed, d)
+        gate, admit = None, True
+        for (sb, si, allowed, d, want) in common.threshold_gates(nl, ds.block, pred):   # the predicate called, or inlined as the same comparison
+            gate, admit = (sb, si, allowed, d), want
         r.require(gate is not None, "delivery-gated-by-predicate", fn=nl, site=ds.at,
                   detail="the appender loop is control-dependent on %s" % pred.path)
         if gate:
             sb, si, allowed, d = gate
             labels = {si.label(v) for v, _ in allowed}
-            r.require(labels == {True}, "gate-polarity", fn=nl, detail="delivery only on the predicate's true edge (allowed edges %s)" % labels)
+            r.require(labels == {admit}, "gate-polarity", fn=nl, detail="delivery only on the predicate's true edge (allowed edges %s)" % labels)
             r.require(deep_strip(d[2][0]) == ("param", 1), "gate-on-self", fn=nl, detail="predicate evaluated on the node itself: %s" % show(d[2][0]))
             r.require(any(x[0] == "call" and x[1] == "log::Record::<'a>::level" and deep_strip(x[2][0]) == ("param", 2) for x in walk(d[2][1])),
                       "gate-level-from-record", fn=nl, detail="predicate level is record.level(): %s" % show(d[2][1]))
